@@ -397,6 +397,47 @@ func main() {
 			}
 			e.Strs("appendRuneInternalBody", st, "baseTokenBuilder.appendRuneInternal: statements")
 		}
+		// SeqQL range bounds: parseRangeTerm goes through parseCompositeToken + parseSeqQLKeyword for every bound (that is where
+		// the case rule is applied), assigns the term only from its result, and nothing in token_range.go trims a bound
+		if f, err := r.Load("parser/token_range.go"); err != nil {
+			e.Missing("rangeTermCalls", err)
+		} else {
+			var calls, assigns, trims []string
+			if fd := f.Func("", "parseRangeTerm"); fd == nil {
+				e.Missing("rangeTermCalls", "parseRangeTerm not found")
+			} else {
+				calls = lib.Filter(f.Calls(fd.Body), func(s string) bool { return strings.HasPrefix(s, "parse") })
+				ast.Inspect(fd.Body, func(n ast.Node) bool {
+					if a, ok := n.(*ast.AssignStmt); ok {
+						l := f.Render(a.Lhs[0])
+						if strings.HasPrefix(l, "*term") || strings.HasPrefix(l, "term.") {
+							x := f.Render(a)
+							if len(x) > 40 {
+								x = x[:40]
+							}
+							assigns = append(assigns, x)
+						}
+					}
+					return true
+				})
+				e.Strs("rangeTermCalls", calls, "parseRangeTerm: parser functions called, in order")
+				e.Strs("rangeTermAssigns", assigns, "parseRangeTerm: assignments to the term (cut to 40 characters)")
+			}
+			for _, d := range f.AST.Decls {
+				if fd, ok := d.(*ast.FuncDecl); ok && fd.Body != nil {
+					for _, c := range f.Calls(fd.Body) {
+						if strings.Contains(c, "Trim") || strings.Contains(c, "Fields") {
+							trims = append(trims, fd.Name.Name+": "+c)
+						}
+					}
+				}
+			}
+			e.Strs("rangeTrimCalls", trims, "token_range.go: calls of strings.Trim* / Fields (none expected)")
+			if fd := f.Func("", "parseSeqQLTokenRange"); fd != nil {
+				e.Strs("tokenRangeCalls", lib.Filter(f.Calls(fd.Body), func(s string) bool { return s == "parseRangeTerm" || strings.HasPrefix(s, "strings.") }),
+					"parseSeqQLTokenRange: parseRangeTerm / strings.* calls")
+			}
+		}
 		// The switch is looked for in every function of the file; the flags the driver needs are ALWAYS emitted (conservative
 		// default when the shape is not recognised, plus a Missing marker), so that a restructured source still lets the
 		// harness run and search for a failing input.
